@@ -120,3 +120,69 @@ def worst_f32(repo, fi, fixed_same=None, corners=False):
 
 def _is_power_product(term) -> bool:
     return isinstance(term, Rat) and len(term.num) == 1 and len(term.den) == 1
+
+
+# ---- C01: the wide box of the property, conditioned on a representable result -------------------------------------
+WIDE = {k: (1e-9, 1e9) for k in ('tof', 'Ltotal', 'wavelength', 'dspacing', 'energy')}
+WIDE['Q'] = (1e-9, 1e9)
+WIDE['fn:sin'] = (1e-6, 1.0)  # sin(theta) for scattering angles in (0, pi] (down to a micro-radian)
+# a subnormal float32 x carries a relative error of up to 2**-150 / x: more than 1e-5 below 7e-41
+F32_ACCURATE_MIN = math.log10(7.0e-41)
+
+
+def worst_f32_given_result(repo, fi, corners=True):
+    """Over the unit grid and the box WIDE: the worst float32 power-product intermediate that overflows, or falls below the
+    magnitude at which a subnormal float32 still has 1e-5 relative accuracy, for inputs whose exact *result* is a normal
+    float32 number.  Exact (vertex enumeration of the polytope box x result slab in log space)."""
+    specs = specs_for(fi)
+    names = [n for n, s_ in specs.items() if s_.kind == 'scalar' and (n in WIDE or s_.dim == 'ANGLE')]
+    if len(names) != len(specs):
+        return None, 0, 0
+    choices = []
+    for n in names:
+        grid = LENGTH_LIKE_WAVELENGTH if n in ('wavelength', 'dspacing') else UNIT_GRID.get(specs[n].dim)
+        if grid is None:
+            return None, 0, 0
+        choices.append((grid[0], grid[-1]) if corners else grid)
+    worst, n_runs, n_checked = None, 0, 0
+    for combo in itertools.product(*choices):
+        units = dict(zip(names, combo, strict=True))
+        T.reset()
+        model = Model()
+        model.narrow_log = []
+        it = Interp(repo, model)
+
+        def go(i, units=units):
+            kw = {n: make_param(i, n, dataclasses.replace(specs[n], unit=parse_unit(u)), 'float32') for n, u in units.items()}
+            return i.call_function(fi, [], kw)
+        outs = [o for o in it.run_all(go) if o.kind == 'return']
+        n_runs += 1
+        if len(outs) != 1 or not isinstance(getattr(outs[0].value, 'term', None), Rat) or outs[0].value.unit is None:
+            continue
+        res = outs[0].value
+        try:
+            cond = M.loglinear(res.term / res.unit.scale(), WIDE)
+        except (M.Unbounded, T.EvalError, KeyError):
+            continue
+        for v, where in model.narrow_log:
+            if not _is_power_product(v.term) or v.unit is None:
+                continue
+            try:
+                obj = M.loglinear(v.term / v.unit.scale(), WIDE)
+                ci = M.conditional_interval(obj, cond, WIDE, (M.F32_MIN_NORMAL, M.F32_MAX))
+            except (M.Unbounded, T.EvalError, KeyError):
+                continue
+            if ci is None:
+                continue
+            n_checked += 1
+            lo, hi = ci
+            out_lo, out_hi = lo < F32_ACCURATE_MIN - 1e-6, hi > M.F32_MAX + 1e-6
+            if out_lo or out_hi:
+                sev = (F32_ACCURATE_MIN - lo) if out_lo else (hi - M.F32_MAX)
+                if worst is None or sev > worst['_sev']:
+                    worst = {'_sev': sev, 'units': units, 'value': T.show(v.term)[:120], 'stored_in_unit': repr(v.unit), 'where': where,
+                             'log10_magnitude_when_the_result_is_a_normal_float32': [round(lo, 1), round(hi, 1)],
+                             'float32_limits_log10': [round(F32_ACCURATE_MIN, 1), round(M.F32_MAX, 1)]}
+    if worst is not None:
+        worst = {k: v for k, v in worst.items() if k != '_sev'}
+    return worst, n_runs, n_checked
